@@ -311,6 +311,49 @@ def h04_mem_handback(S):
         S.check("not-forgotten-once-due", wait <= backoff + 2 * SEC, info="the back-off is over for more than two seconds and the retry is not delivered")
 
 
+
+def h04_rabbit_crowded(S):
+    """RabbitMQ: a retry waits for its back-off in the delayed queue while many other deferred messages are scheduled - as many as
+    the queue was declared to hold, and a few more.  It still does not come back before its time."""
+    import asyncio
+    import repid.data._parameters as P
+    from fakes import amqp as fa
+    from repid.data._key import RoutingKey
+    from harness.common import World, try_consume
+    from pamqp import commands as spec
+
+    extra = S.pick("messages_beyond_the_declared_capacity", 3)
+    out = {}
+
+    async def main(loop):
+        w = World(backend="rabbit")
+        await w.open(record=False)
+        dq = w.srv.queues["default:delayed"]
+        capacity = dq.arguments.get("x-max-length")
+        out["capacity"] = capacity
+        key = RoutingKey(topic="job", queue="default", id_="r1")
+        now = P.datetime.now()
+        params = P.Parameters(retries=P.RetriesProperties(max_amount=3, already_tried=1), timestamp=now,
+                              delay=P.DelayProperties(next_execution_time=now + real_timedelta(hours=1)))
+        await w.broker.enqueue(key, "p", params)                     # the retry, due in an hour
+        # other producers schedule deferred jobs (published by the server-side stub directly: they only have to be there)
+        n = (capacity if capacity is not None else 2) + extra
+        for i in range(n):
+            props = spec.Basic.Properties(message_id=f"filler{i}", headers={"topic": "other", "queue": "default"}, priority=5)
+            w.srv.seq += 1
+            w.srv.route("default:delayed", fa.QMsg(b"{}", props, "default:delayed", w.srv.seq), loop)
+        cons = w.broker.get_consumer("default", ["job"])
+        await cons.start()
+        out["got"] = await try_consume(cons, timeout=1)
+        out["where"] = sorted(qn for qn, q in w.srv.queues.items() if any(m.props.message_id == "r1" for m in q.ready))
+
+    run_async(main, clock=PinnedClock(Y1970 + 10**15))
+    S.cover("crowded-delayed-queue")
+    S.check("never-delivered-before-due", out["got"] is None and out["where"] == ["default:delayed"],
+            info=f"the delayed queue was declared with capacity {out['capacity']}; after that many (+{extra}) further deferred messages the retry "
+                 f"is in {out['where']} and the normal consumer received {None if out['got'] is None else out['got'][0].id_}")
+
+
 from harness.c05 import h05_rabbit, h05_redis  # noqa: E402
 from harness.c02 import h02_rabbit_retry  # noqa: E402
 
@@ -368,3 +411,8 @@ HARNESSES.append(Harness(
     functions=["connections/in_memory/message_broker.py:InMemoryMessageBroker.requeue", "connections/in_memory/message_broker.py:InMemoryMessageBroker.reject",
                "connections/in_memory/consumer.py:_InMemoryConsumer.consume"],
     covers=["inspected-and-handed-back", "delivered", "held-back"]))
+HARNESSES.append(Harness(
+    name="H04-rabbit-crowded-delayed-queue", scenario=h04_rabbit_crowded,
+    bounds={"retry": "due in an hour", "further deferred messages": "the declared capacity of the delayed queue (x-max-length, if any; else 2) plus 0..2"},
+    functions=["connections/rabbitmq/message_broker.py:RabbitMessageBroker.queue_declare", "connections/rabbitmq/message_broker.py:RabbitMessageBroker.enqueue"],
+    covers=["crowded-delayed-queue"], stubs=["fake AMQP server: x-max-length with drop-head through the declared DLX; the filler messages are put there by the stub"]))
